@@ -28,6 +28,7 @@ pub(super) struct MulAddFusion<F> {
 
 impl<F: Field> MulAddFusion<F> {
     /// Scans `ops` to build use-counts, definitions, and backwards-op tracking.
+    #[cfg(test)]
     pub(super) fn new(ops: &[Op<F>]) -> Self {
         Self::with_predefined(ops, &[])
     }
